@@ -91,6 +91,24 @@ func Run(r *core.Run) {
 	}
 	addKeys("duplicate-id", []any{good, clone(good)}, &no)
 	addKeys("duplicate-id-nonadjacent", []any{good, key("other", "JsonWebKey2020", "jwk", nil), clone(good)}, &no)
+	// the same id twice over every ordered pair of key shapes (JWK / base58 material, four types), adjacent and with a key in between,
+	// in an add-public-keys patch and in a replace document
+	{
+		shapes := []func(id string) M{
+			func(id string) M { return key(id, "JsonWebKey2020", "jwk", []any{"authentication"}) },
+			func(id string) M { return key(id, "Ed25519VerificationKey2018", "base58", []any{"assertionMethod"}) },
+			func(id string) M { return key(id, "EcdsaSecp256k1VerificationKey2019", "jwk", nil) },
+			func(id string) M { return key(id, "X25519KeyAgreementKey2019", "base58", []any{"keyAgreement"}) },
+		}
+		for i, a := range shapes {
+			for j, b := range shapes {
+				addKeys(fmt.Sprintf("duplicate-id-shapes-%d-%d", i, j), []any{a("dup"), b("dup")}, &no)
+				addKeys(fmt.Sprintf("duplicate-id-shapes-%d-%d-nonadjacent", i, j), []any{a("dup"), shapes[(i+1)%4]("between"), b("dup")}, &no)
+				add(fmt.Sprintf("replace/duplicate-key-shapes-%d-%d", i, j), M{"action": "replace", "document": M{"publicKeys": []any{a("dup"), shapes[(j+1)%4]("between"), b("dup")}}}, &no)
+				addKeys(fmt.Sprintf("distinct-id-shapes-%d-%d", i, j), []any{a("one"), b("two")}, &yes)
+			}
+		}
+	}
 	// members
 	for _, m := range []string{"id", "type"} {
 		k := clone(good).(M)
